@@ -40,3 +40,9 @@ Definition coll_search_count (globs : list bytes) (desc : bool) (c : coll) (limi
 Definition scan_hit (globs : list bytes) (o : obj) : bool := glob_test globs (o_id o).
 Definition search_hit (globs : list bytes) (o : obj) : bool :=
   negb (o_spatial o) && glob_test globs (o_str o).
+
+(* SCAN key [MATCH *] CURSOR cursor LIMIT limit COUNT / SEARCH key [MATCH *] CURSOR cursor LIMIT limit COUNT:
+   the shortcut with a cursor — count := uint64(Count() resp. StringCount()); if cursor >= count
+   { count = 0 } else { count -= cursor }; if count > limit { count = limit }  (in this order) *)
+Definition coll_scan_count_at (c : coll) (cursor limit : N) : N := scan_count_shortcut c cursor limit.
+Definition coll_search_count_at (c : coll) (cursor limit : N) : N := search_count_shortcut c cursor limit.
